@@ -9,7 +9,7 @@ CONSTANTS
   LegacyConcurrentWaits = FALSE
   LegacyStartedFirst = FALSE
   LegacyHandleClose = FALSE
-  MutUnregBeforeDone = FALSE
+  MutUnregBeforeDone = TRUE
   MutIsClosedInRunHandlers = FALSE
   MutSkipStoppedWhenClosing = FALSE
   LegacySecondCloseNil = FALSE
